@@ -551,13 +551,28 @@ def sibling_bound_objects(ctx, i):
         rt.BEH[fid] = beh
         wrappers.append(Graph([FunctionNode(fn, name=f"w{j}", output_name=f"h{j}")], name=f"pipe{j}").bind(sink=sinks[j]).as_node())
     rng.shuffle(wrappers)
-    g = Graph(wrappers, name="outer")
-    variant = rng.choice(["plain", "add_nodes"])
+    # a plain node of the enclosing graph with a collector bound on the ENCLOSING graph
+    ledger = ["ledger-seed"]
+    ft = rt.make_function("tail", "sbo/tail", [{"n": "item"}, {"n": "ledger"}])
+    rt.KIND["sbo/tail"] = "fn"
+
+    def tail_beh(kw):
+        received.setdefault("ledger", []).append(kw["ledger"])
+        kw["ledger"].append(kw["item"])
+        return tuple(kw["ledger"])
+
+    rt.BEH["sbo/tail"] = tail_beh
+    g = Graph(wrappers + [FunctionNode(ft, name="tail", output_name="tl")], name="outer").bind(ledger=ledger)
+    variant = rng.choice(["plain", "add_nodes", "add_nodes", "select", "rebind-same"])
     if variant == "add_nodes":
         fx = rt.make_function("extra", "sbo/extra", [{"n": "item"}])
         rt.KIND["sbo/extra"] = "fn"
         rt.BEH["sbo/extra"] = lambda kw: ("extra", kw["item"])
         g = g.add_nodes(FunctionNode(fx, name="extra", output_name="ex"))
+    elif variant == "select":
+        g = g.select("tl", "h0")
+    elif variant == "rebind-same":
+        g = g.unbind("ledger").bind(ledger=ledger)
     case = {"program": f"{k} sibling nested graphs binding `sink` to their own list", "variant": variant}
     for step in range(2):
         kind = rng.choice(["sync", "async"])
@@ -576,6 +591,10 @@ def sibling_bound_objects(ctx, i):
                 ctx.violation("C18:bound-value-copied", f"run {step} ({kind}, {variant}): the node of pipe{j} received {whose} instead of the object bound on its own graph", {**case, "step": step})
                 return
             exp = [f"seed{j}"] + [f"it{t}" for t in range(step + 1)]
+            got_l = received.get("ledger", [])
+            if j == 0 and (len(got_l) != step + 1 or got_l[-1] is not ledger or ledger != ["ledger-seed"] + [f"it{t}" for t in range(step + 1)]):
+                ctx.violation("C18:bound-value-copied", f"run {step} ({kind}, {variant}): the node `tail` received {'the bound object' if got_l and got_l[-1] is ledger else 'another object'} for `ledger`; the caller's ledger is {ledger!r}", {**case, "step": step})
+                return
             if sinks[j] != exp:
                 ctx.violation("C18:state-leaked-into-run", f"run {step} ({kind}, {variant}): the collector bound on pipe{j} holds {sinks[j]!r}, expected {exp!r}", {**case, "step": step})
                 return
